@@ -71,7 +71,9 @@ pub fn positions(seed: u64, n_random_hist: usize, n_sparse: usize) -> Result<Vec
     let seeds = corpus::all_seeds()?;
     let mut out: Vec<PosSpec> = seeds
         .iter()
-        .filter(|f| !Pos::from_fen(f).map(|p| p.legal_moves().is_empty()).unwrap_or(true))
+        // (positions with more than 100 legal moves are for the board-level walkers, a fixed-depth
+        // search of them with the cache off is far too expensive)
+        .filter(|f| !Pos::from_fen(f).map(|p| { let n = p.legal_moves().len(); n == 0 || n > 100 }).unwrap_or(true))
         .map(|f| PosSpec {
             fen: f.clone(),
             moves: vec![],
@@ -434,7 +436,7 @@ pub fn engine_search(b: &Board, limits: Option<SearchLimits>, depth: Option<u8>)
 
 pub fn run_c11(tier: &str, seed: u64, shard: usize, of: usize, only_job: Option<usize>, time_cap: u64) -> Result<(), String> {
     let thorough = tier == "thorough";
-    let specs = positions(seed, if thorough { 6000 } else { 300 }, if thorough { 3000 } else { 200 })?;
+    let specs = positions(seed, if thorough { 6000 } else { 240 }, if thorough { 3000 } else { 160 })?;
     let started = std::time::Instant::now();
     let ev = SimpleEvaluator;
     let mut distinct = std::collections::HashSet::new();
@@ -534,6 +536,21 @@ fn c11_case(b: &Board, spec: &PosSpec, depth: u8, job: usize, ev: &SimpleEvaluat
         return;
     };
     out::count("C11.evaluations", 1);
+    // a search to depth d must have completed iteration d: the root's cache entry says so
+    match tt_snapshot().get(&key_u64(b.zkey)) {
+        Some(e) if e.depth == depth => {}
+        other => out::violation(
+            "C11",
+            "iteration-not-completed",
+            format!(
+                "search to depth {depth}: the root's cache entry after the search is {:?} (depth {depth} expected), i.e. the fixed-depth search did not run its last iteration; on {}",
+                other.map(|e| (e.depth, e.score)),
+                spec.text()
+            ),
+            replay.clone(),
+        ),
+    }
+    c11_orderer(b, spec, job);
     if r.nodes > 50 && b.clone().get_legal_moves().len() > 1 {
         distinct.insert(key_u64(b.zkey) ^ (u64::from(depth) << 56) ^ (spec.moves.len() as u64) << 48);
     }
@@ -590,6 +607,78 @@ fn c11_case(b: &Board, spec: &PosSpec, depth: u8, job: usize, ev: &SimpleEvaluat
             }
         }
     }
+}
+
+/// "Move ordering is a pure optimisation": whatever the cache and the killer table hold, the
+/// ordering iterator must yield every move of the list exactly once.
+fn c11_orderer(b: &Board, spec: &PosSpec, job: usize) {
+    let mut rng = Rng::derive(job as u64, 0x02DE2);
+    let mut boards = vec![b.clone()];
+    // the position itself and a few of its children
+    let kids = b.clone().get_legal_moves();
+    for _ in 0..3 {
+        if kids.is_empty() {
+            break;
+        }
+        let mut c = b.clone();
+        c.make_move(*rng.pick(&kids));
+        boards.push(c);
+    }
+    for board in boards {
+        let all = board.get_all_moves();
+        let caps: Vec<Ply> = all.iter().filter(|m| m.is_capture()).copied().collect();
+        for list in [&all, &caps] {
+            if list.is_empty() {
+                continue;
+            }
+            for variant in 0..3 {
+                clear_tt();
+                let mut killers: [Option<Ply>; 2] = [None, None];
+                if variant >= 1 {
+                    killers[0] = Some(*rng.pick(list));
+                    killers[1] = Some(*rng.pick(list));
+                }
+                if variant == 2 {
+                    // a cache entry for this position naming one of the moves as best
+                    TRANSPOSITION_TABLE.write().unwrap_or_else(std::sync::PoisonError::into_inner).insert(
+                        board.zkey,
+                        TTEntry {
+                            score: 0,
+                            depth: 1,
+                            bound: crate::board::transposition_table::Bounds::Exact,
+                            best_ply: *rng.pick(list),
+                        },
+                    );
+                }
+                let ordered = Search::verif_order_moves(list, board.zkey, &killers);
+                out::count("C11.orderings_checked", 1);
+                let mut a: Vec<u32> = list.iter().map(eng::ply_code).collect();
+                let mut o: Vec<u32> = ordered.iter().map(eng::ply_code).collect();
+                a.sort_unstable();
+                o.sort_unstable();
+                if a != o {
+                    let missing: Vec<String> = a.iter().filter(|c| !o.contains(c)).map(|c| super::oracle::describe_code(*c)).collect();
+                    let extra: Vec<String> = o.iter().filter(|c| !a.contains(c)).map(|c| super::oracle::describe_code(*c)).collect();
+                    out::violation(
+                        "C11",
+                        "ordering-drops-or-repeats-moves",
+                        format!(
+                            "the ordering iterator does not yield every move once ({} given, {} yielded; never tried [{}]; tried although not in the list or twice [{}]; killers/cache variant {variant}) in a position of {}",
+                            list.len(),
+                            ordered.len(),
+                            missing.join(" "),
+                            extra.join(" "),
+                            spec.text()
+                        ),
+                        format!("{{\"kind\":\"c11\",{},\"job\":{}}}", spec.json(), job),
+                    );
+                    clear_tt();
+                    return;
+                }
+            }
+        }
+    }
+    clear_tt();
 }
 
 // ---------------------------------------------------------------------------
